@@ -83,7 +83,6 @@ PROBES = [
 #     affected: XML/SVG fail only on a NUL byte, HTML only through an embedded resource or a NUL byte, JSON (numbers are rewritten
 #     in place: 1.50e+3 -> 1500e+3) on any text that is not JSON.  Generators do not emit Bytes calls for html/xml/svg/json inputs that
 #     can make the minifier fail (the String and Minify entry points are still called on them; Bytes on js/css stays fully checked).
-KA_JSON = False      # /repo commit c26c30b (Number no longer rewrites the mantissa before it bails out) removed the JSON instance of KA
 KA_CAN_FAIL_HTML = re.compile(rb'\x00|<script|<svg|<math|[\s"\'/<]on[^\s=>]*\s*=', re.I)   # any attribute whose name starts with "on" is JS
 # KB: the JS minifier needs time quadratic in the number of var statements of one scope (js/vars.go hoistVars; the 10000 cut-off
 #     only limits the length of a single declaration list).  Generators emit at most 3000 var statements per scope.
@@ -104,7 +103,7 @@ def json_ok(data):
 def doc_tags(lang, data):
     """construct tags of known findings present in a document (computed once per document, not per call)"""
     tags = set()
-    if lang == 'json' and KA_JSON and not json_ok(data):
+    if lang == 'json' and not json_ok(data):
         tags.add('KA')
     if lang in ('xml', 'svg') and b'\x00' in data:
         tags.add('KA')
@@ -177,13 +176,13 @@ class Cases:
             k = (api, lang, opts, prec, file)
         if k in self.seen:
             return None
-        self.seen.add(k)
         if not allow_known:
             if tags is None:
                 tags = doc_tags(lang, full if full is not None else (data if file is None else open(file, 'rb').read()))
             if excluded(api, tags):
                 self.excluded += 1
                 return None
+        self.seen.add(k)
         c = dict(id=len(self.cases), api=api, lang=lang, opts=opts, prec=prec, origin=origin)
         if file is not None:
             c['file'] = file
